@@ -66,7 +66,7 @@ PROPS = {
         "title": "Canonicity: edges are equal exactly when they denote the same function",
         "rules": [on_program(rules_canon.rule_canon), on_program(rules_canon.rule_hash), on_program(rules_canon.rule_equals), on_program(rules_canon.rule_edge_array_guarded), callers_for("C01"), on_program(rules_level.rule_index_kind), on_program(rules_storage.rule_singleton_scan)],
         "explanation": STRUCTURAL + ". C01: reduce-then-lookup-before-insert on every path of node creation (normalise, transparent/identity/redundant elimination, sort, hash, find, insert — in order), "
-                       "hash recipe agreement between the unpacked and the packed form in all four variants, edge equality reading forest id + node + edge value, who may write packed nodes / the unique table, and level/variable index kinds (the level-size bound and the unique-table slot of a node are taken for the variable at its level).",
+                       "hash recipe agreement between the unpacked and the packed form in all four variants, edge equality reading forest id + node + edge value, who may write packed nodes / the unique table, and level/variable index kinds (the level-size bound and the unique-table slot of a node are taken for the variable at its level). Round 7: a sparse unpacked node is sorted before anything that depends on the order of its entries (EV* normalisation, the hash, the duplicate lookup), and unpacked_node touches its edge-value array only under a hasEdges()/_edge test (defect D24).",
         "assumptions": ["that the reduction conditions and the EV normal forms are the right ones is not decided (value semantics)", "float tolerance effects in EV* are not decided"],
         "technique": "ordered must-pass-through rules over the clang CFG of forest::createReducedNode; sibling comparison of the two hash functions per variant; who-may-call tables",
         "level_text": "exact static rule check over all paths of forest::createReducedNode and the two hash functions plus the caller tables; decides the structural clauses canonicity rests on, not the normal forms themselves",
@@ -78,7 +78,7 @@ PROPS = {
         "rules": [on_program(rules_canon.rule_canon), callers_for("C02"), on_program(rules_layer.rule_active_count), on_program(rules_layer.rule_cache_before_rewrite),
                   on_program(rules_layer.rule_exchange_once), on_program(rules_sibling.rule_swap_loops), on_program(rules_canon.rule_hash), on_program(rules_storage.rule_singleton_scan), on_program(rules_level.rule_chain_from_built)],
         "explanation": STRUCTURAL + ". C02: no transparent / redundant / identity pattern is inserted on any path of node creation and the stored level is the unpacked level; packed nodes are written only by creation and by the reordering primitives; "
-                       "node count = live nodes (incActive/decActive pairing); the in-place rewrite of the adjacent-variable swap visits the same ranges in its MT and EV+ twins; full and sparse forms hash identically.",
+                       "node count = live nodes (incActive/decActive pairing); the in-place rewrite of the adjacent-variable swap visits the same ranges in its MT and EV+ twins; full and sparse forms hash identically. Round 7: a node built at a level is chained upwards (makeRedundantsTo / makeIdentitiesTo / chainToLevel) from that level, so no level between is skipped or doubled (defect D26, seed C02c).",
         "assumptions": ["children strictly below parents, quasi-reduced never skipping and singleton-edge legality after arbitrary operation histories depend on the values operations put into nodes: not decided"],
         "technique": "ordered must-pass-through rules over clang CFGs; who-may-call tables; twin-function comparison of the swap routines",
         "level_text": "exact static rule check over forest::createReducedNode, the caller tables, the allocation/deallocation sites and the twin swap routines; decides structural necessary conditions of the stored-node invariants",
@@ -130,7 +130,7 @@ PROPS = {
         "title": "Node lifetime: reference counts are exact, nothing dangles, nothing leaks",
         "rules": [rules_own.rule_own, callers_for("C06"), on_program(rules_sibling.rule_counter_width), on_program(rules_ct.rule_recycle_gate), on_program(rules_sibling.rule_refcount_twins), on_program(rules_layer.rule_edge_set_balance)],
         "explanation": STRUCTURAL + ". C06: link/unlink discipline — on every non-throwing path of every analysed function each node_handle reference is created, moved into exactly one owner and released exactly once; "
-                       "nodes die and handles are recycled only from the last-unlink/last-uncache state machine.",
+                       "nodes die and handles are recycled only from the last-unlink/last-uncache state machine. Round 7: dd_edge::set(n), the consuming root setter, releases one reference on every live-forest path; set_and_link links and unlinks together or not at all (seed C06d).",
         "assumptions": ["values flowing through arrays/containers are untracked (possible miss, never an alarm)", "throwing paths are exempt (C06 excludes error paths)",
                         "slot-level primitives createReducedNode/deleteNode/linkAllDown are the trusted base", "counter-width arithmetic is covered only by the sibling-agreement rule"],
         "technique": "ownership (linear) typing of node handles by path-sensitive dataflow over clang CFGs, with a summary table of MEDDLY's API; who-may-call tables",
@@ -142,7 +142,7 @@ PROPS = {
         "title": "Compute tables are transparent: cached answers equal recomputed answers",
         "rules": [on_program(r) for r in rules_ct.RULES] + [rules_ftype.rule_ct_slots, callers_for("C07"), on_program(rules_layer.rule_cache_before_rewrite), on_program(rules_sibling.rule_counter_width), on_program(rules_sibling.rule_refcount_twins)],
         "explanation": STRUCTURAL + ". C07: a handle is recycled only at cache count zero (including the tail collapse of the handle array); a hit is returned only after the dead-entry scan said alive; "
-                       "every NODE item is cache-counted on add and un-counted on delete (same sections), and consulted by the dead/stale scans; reordering clears the tables first.",
+                       "every NODE item is cache-counted on add and un-counted on delete (same sections), and consulted by the dead/stale scans; reordering clears the tables first. Round 8: the unrolled key comparison of the per-operation tables compares every slot once, slot i with slot i, over the slot's whole width (seed C07d).",
         "assumptions": ["that the key contains every input the result depends on is not decided (non-interference)", "equality of cached and recomputed answers as such is not decided"],
         "technique": "guard-edge dominance and must-pass-through rules over clang CFGs of node_headers and all ct_tmpl instantiations; flag-aware path search; who-may-call tables",
         "level_text": "exact static rule check over lastUnlink/lastUncache/recycleNodeHandle/uncacheNode/unlinkNode and every instantiation of ct_tmpl::{find,isDead,isStale,addEntry,result2entry,deleteEntry}; decides the recycle gate, dead-before-hit and count-symmetry clauses",
@@ -178,7 +178,7 @@ PROPS = {
         "title": "Copying between forests preserves the function",
         "rules": [rules_ftype.rule_mix_copy, callers_for("C10"), on_program(rules_level.rule_next_level), on_program(rules_dispatch.rule_copy_factory), on_program(rules_dispatch.rule_case_scalar), on_program(rules_dispatch.rule_copy_width), on_program(rules_dispatch.rule_identity_expansion), on_program(rules_dispatch.rule_special_terminal)],
         "explanation": STRUCTURAL + ". C10: cross-forest clause — copy_MT, copy_EV_fast, copy_EV<…> read only the source forest and build only in the target forest (copy_inforest: one forest by construction); "
-                       "every value placed in the copy comes from the conversion of a source value, never from the target's transparent edge (who-may-call table for getTransparentEdge / getTransparentNode); level discipline of the copy recursion; the factory constructs each copy implementation only for the forest pairs it was written for (same object / MT source / same edge operation and range / matching edge type); under each case of a terminal / range / edge-type switch the value passes through a scalar of that case's family, read at the source's own width (defect D16).",
+                       "every value placed in the copy comes from the conversion of a source value, never from the target's transparent edge (who-may-call table for getTransparentEdge / getTransparentNode); level discipline of the copy recursion; the factory constructs each copy implementation only for the forest pairs it was written for (same object / MT source / same edge operation and range / matching edge type); under each case of a terminal / range / edge-type switch the value passes through a scalar of that case's family, read at the source's own width (defect D16). Round 7: the +infinity terminal of an EV+ / index-set source must be told apart before an accumulated edge value is turned into a terminal (known finding).",
         "assumptions": ["scalar conversions and round-trip identity are not decided", "terminal handles are treated as forest independent"],
         "technique": "forest-indexed typing of node handles over clang CFGs; who-may-call table over the resolved call graph; sign typing of level locals",
         "level_text": "exact static rule check over operations/copy.cc (all instantiations) and the callers of the transparent-edge getters; decides the cross-forest, value-provenance and level-sign clauses only",
@@ -190,7 +190,7 @@ PROPS = {
         "rules": [on_program(rules_storage.rule_chunkptr), on_program(rules_storage.rule_layout), callers_for("C12"), on_program(rules_canon.rule_hash),
                   on_program(rules_sibling.rule_small_hole_threshold), on_program(rules_storage.rule_threshold_first), on_program(rules_sibling.rule_large_hole_threshold), on_program(rules_storage.rule_singleton_scan), on_program(rules_storage.rule_coalesce)],
         "explanation": STRUCTURAL + ". C12: threshold clauses of the hole managers (the small-hole threshold is the same quantity at every site; the large-hole threshold is raised before the holes are re-classified against it), stale-chunk-pointer clause (a pointer from getChunkAddress is not used after a call that can reach requestChunk — a bug of exactly that shape shows under the reallocating managers and not under malloc style) "
-                       "and layout clause (full-only, sparse-only and either-form writers and readers of a packed node agree on the region bases and on the hash recipe, so the storage flag cannot change what is read back).",
+                       "and layout clause (full-only, sparse-only and either-form writers and readers of a packed node agree on the region bases and on the hash recipe, so the storage flag cannot change what is read back). Round 8: the coalescing protocol of the hole managers, including that the heap manager's current hole follows a merged hole (seed C12d).",
         "assumptions": ["the relational statement itself (same results under every policy combination) is a hyper-property over configurations and is not decided",
                         "uses of a chunk pointer are seen only where they occur in exported events (call arguments, stores, conditions, initialisers)"],
         "technique": "def-use path rule over clang CFGs combined with call-graph reachability of requestChunk; accessor-by-accessor comparison of region-base expressions",
@@ -215,7 +215,7 @@ PROPS = {
         "title": "Writing functions to an exchange file and reading them back is lossless",
         "rules": [on_program(r) for r in rules_codec.RULES] + [rules_own.rule_own_reader],
         "explanation": STRUCTURAL + ". C14: format agreement of every writer/reader pair (type letters, boolean letters, `n` marker, terminals decoded from / encoded to handles, section order and guards of a node record, "
-                       "file keywords, forest code characters, variable order of the domain record) and the reader's reference-count discipline.",
+                       "file keywords, forest code characters, variable order of the domain record) and the reader's reference-count discipline. Round 8: both text writers map the format letters of put(double, …) to one notation each, and to the same ones (seed C14d).",
         "assumptions": ["numeric precision of printed reals and bottom-up numbering of every graph are not decided", "ownership parked in the reader's local vector is untracked by the own engine (container token not modelled)"],
         "technique": "writer/reader signature extraction from clang CFG facts (switch-case tables, literals, section and traversal order) and comparison of the two sides; ownership typing of the reader",
         "level_text": "exact static rule check over the four writer/reader pairs of the exchange format and the domain record; decides format agreement and the reader's link/unlink discipline, not the round trip as such",
@@ -238,7 +238,7 @@ PROPS = {
                   # "use of an edge whose forest was destroyed raises an error" rests on the registry discipline
                   on_program(rules_life.rule_forest_dtor), on_program(rules_life.rule_unregister), on_program(rules_life.rule_registry), on_program(rules_life.rule_op_registration), on_program(rules_guard.rule_partial_shortcut), on_program(rules_layer.rule_result_by_value)],
         "explanation": STRUCTURAL + ". C16: every misuse named by the property has a check that dominates the dangerous use and throws the documented code: constructor-chain "
-                       "domain/shape checks, zero-divisor and infinity tests, terminal overflow, value type, null operation, exhausted iterator.",
+                       "domain/shape checks, zero-divisor and infinity tests, terminal overflow, value type, null operation, exhausted iterator. Round 8: an operation registers itself in every forest it stores, so destroying any of them destroys the operation and a forest re-created at the same address cannot meet a stale operation that skips the constructor checks (seed C16d).",
         "assumptions": ["state after an error thrown mid-recursion (partially built results) is not decided", "only the enumerated entry points and partial operations are covered"],
         "technique": "must-check dominance over clang CFGs (guard test with a throwing arm dominates the sink); rule instances enumerated from the class hierarchy",
         "level_text": "exact static rule check: for each enumerated entry point / partial operation, every path to the dangerous use passes a test whose failing arm throws MEDDLY::error with the documented code; decides presence and placement of the checks, not the state after unwinding",
@@ -276,7 +276,7 @@ PROPS = {
         "title": "Saturation over a partitioned relation equals reachability over its union",
         "rules": [rules_ftype.rule_mix_satur_events, on_program(rules_level.rule_position_kind), on_program(rules_guard.rule_flags_binding), rules_orphan.rule_event_level, on_program(rules_level.rule_identity_needs_rule), on_program(rules_level.rule_saturation_provenance)],
         "explanation": STRUCTURAL + ". C20: cross-forest clause only — in saturation by events / by levels (sat_pregen.cc: saturate, saturateHelper and recFire of the forward and backward variants) and in the relation splitter and event bookkeeping (sat_relations.cc: splitMxd, findConfirmedStates, …) "
-                       "every node handle is used only with the forest it belongs to (state-set forest, relation forest, result forest), on every path; and the position / value clause: where these functions walk a sparsely unpacked relation node, the position z and the value index(z) are kept apart (the identity pattern for a tested-but-unchanged variable is built for the value); and the overload clause: a storage-flag constant binds to a storage-flag parameter in the overload clang resolved (defect D18 in the relation splitter).",
+                       "every node handle is used only with the forest it belongs to (state-set forest, relation forest, result forest), on every path; and the position / value clause: where these functions walk a sparsely unpacked relation node, the position z and the value index(z) are kept apart (the identity pattern for a tested-but-unchanged variable is built for the value); and the overload clause: a storage-flag constant binds to a storage-flag parameter in the overload clang resolved (defect D18 in the relation splitter). Rounds 6-7: every identity expansion of a skipped relation level is governed by the forest's reduction rule or the relation class narrows its forest (3 known findings); the start level and the level of every created-then-saturated node derive from parameters or the domain's top level, never from an operand node (seed C20b; 1 known finding).",
         "assumptions": ["that the fixed point computed equals reachability under the union of the events is algorithmic semantics and is not decided", "the ownership engine is not armed in these files (they use the older compute-table idioms it does not model)",
                         "handles read from compute-table results are untyped until linked with a forest"],
         "technique": "forest-indexed typing of node handles (path-sensitive dataflow over clang CFGs, symbols = forest members of the operation / relation classes)",
